@@ -514,6 +514,12 @@ fn planted_sources() -> Vec<(String, String)> {
         ("{% with a7777, b = [1] %}{% endwith %}", "a7777"),
         ("{% autoescape 'bogus7777' %}{% endautoescape %}", "bogus7777"),
         ("{% filter nosuchfilter7777 %}x{% endfilter %}", "nosuchfilter7777"),
+        // the call of a call block fails; its body spans further lines
+        ("{% call nosuch7777() %}\n a\n {{ 1 }}\n b\n{% endcall %}", "nosuch7777"),
+        ("{% call(v) mac(1, 2, 3, bogus7777=4) %}\n{{ v }}\n\n{% endcall %}", "bogus7777"),
+        ("{% call s.nosuch7777() %}\nbody\n{% endcall %}", "nosuch7777"),
+        // an invalid escape sequence in a string that is not on the first line of its expression
+        ("{{ dict(k=\n\n   \"bad7777 \\x escape\") }}", "bad7777"),
     ];
     for (stmt, marker) in stmts {
         for (pre, post) in [
@@ -593,7 +599,7 @@ impl Part for Planted {
 crate::declare_parts!(Located, Planted);
 
 pub fn run(ctx: &mut Ctx) {
-    ctx.rule = "failing templates: structured multi-line programs (macros, call blocks, blocks, inheritance, includes of failing templates, imports, loops, captures) with failing pieces, their character-level mutations (delete / insert delimiter, quote, multi-byte character, newline / truncate anywhere) and mutated free-mode templates, with CRLF and multi-byte text; for every error of the cause chain that names a template: 1 <= line <= lines of that source, range is a valid slice (in bounds, char boundaries, start <= end) lying on the reported line, template_source() is that source; metamorphic: N in {1,2,7,255,60000,65530,65534} lines of text above shift line by exactly N and the range by the pad length, M in {1,3,200,65530,70000} characters in front move only the range, kind/detail/name unchanged; all Display/Debug/display_debug_info forms complete without panic, debug on and off, also when written into a writer that fails after 0/1/7/60/300 bytes; the returned error names a template. planted: a division by zero planted in every construct (29 expression holes x 4 surroundings and 12 failing statements x 5 surroundings, each x 5 x 3 offsets, enumerated) must be reported on its own line. Non-trivial: error not at line 1 offset 0 and (padding or multi-byte text or a cause chain). Distinct by case.".into();
+    ctx.rule = "failing templates: structured multi-line programs (macros, call blocks, blocks, inheritance, includes of failing templates, imports, loops, captures) with failing pieces, their character-level mutations (delete / insert delimiter, quote, multi-byte character, newline / truncate anywhere) and mutated free-mode templates, with CRLF and multi-byte text; for every error of the cause chain that names a template: 1 <= line <= lines of that source, range is a valid slice (in bounds, char boundaries, start <= end) lying on the reported line, template_source() is that source; metamorphic: N in {1,2,7,255,60000,65530,65534} lines of text above shift line by exactly N and the range by the pad length, M in {1,3,200,65530,70000} characters in front move only the range, kind/detail/name unchanged; all Display/Debug/display_debug_info forms complete without panic, debug on and off, also when written into a writer that fails after 0/1/7/60/300 bytes; the returned error names a template. planted: a division by zero planted in every construct (29 expression holes x 4 surroundings and 16 failing statements (incl. failing calls of call blocks with multi-line bodies and a bad escape sequence on a later line of its expression) x 5 surroundings, each x 5 x 3 offsets, enumerated) must be reported on its own line. Non-trivial: error not at line 1 offset 0 and (padding or multi-byte text or a cause chain). Distinct by case.".into();
     ctx.assumptions = vec!["lines are counted as split('\\n') so that an error after a trailing newline is inside the source".into()];
     preamble(ctx);
     let t = ctx.tier;
